@@ -393,6 +393,23 @@ theorem detector_table : Gen.detectorNames.length = 7 ∧ Gen.detectorNames.Nodu
       v ∈ Gen.detectorNames := by
   refine ⟨by decide, by decide, by decide⟩
 
+/-- the corner of `--disable`: with every registered validator disabled nothing is detected, nothing is reported and the run
+    exits 0 - an empty *enabled* set means "no --enable given", never "run everything that is left" -/
+theorem disable_everything_reports_nothing (re : Regex) (oracle : AsyncOracle) (ctx : List FileCtx) :
+    run re oracle ctx [] Gen.detectorNames = .ok [] ∧ exitCode (run re oracle ctx [] Gen.detectorNames) = 0 := by
+  have hc : chosen [] Gen.detectorNames = [] := by
+    unfold chosen
+    simp only [List.isEmpty_nil, Bool.not_true, Bool.false_eq_true, if_false]
+    rw [List.filter_eq_nil_iff]
+    intro v hv
+    simp [List.contains_iff_mem, hv]
+  have hd : detected ctx [] Gen.detectorNames = [] := by unfold detected; rw [hc]; rfl
+  have hr : run re oracle ctx [] Gen.detectorNames = .ok [] := by
+    unfold run runResults
+    rw [hd]
+    rfl
+  exact ⟨hr, by rw [hr]; rfl⟩
+
 /-! ### the option values are checked before anything is parsed (`src/flags.rs`, model `Bw.Flags`) -/
 
 /-- naming something that is not exactly a registered validator (a fragment, another letter case, padded with blanks,
